@@ -256,6 +256,20 @@ CLAIMED: dict[str, tuple[str, str, str, str, str]] = {
         "must-call pairing on the CFG + abstract evaluation of the port assignment on all small cases",
         "DESIGN §5 C07",
     ),
+    "C05": (
+        "other",
+        "Decides structural clauses: (1) 'each operand at most once, in order, short-circuit operands behind their test' for "
+        "chained comparisons (3-4 operands), and/or (2-4), conditional expressions and `not`, by abstractly interpreting the "
+        "builder's desugaring code on symbolic operands and comparing the recorded build events with Python's evaluation order; "
+        "the AugAssign rewrite that duplicates its target (known finding); (2) the ordering mechanism is in place (side-effect "
+        "op list, calls count, every body compiled under the tracker, tracker chains nodes in insertion order and restores the "
+        "patch); (3) short-circuit forms cannot reach the eager expression checker/compiler; (4) compilers visit node parts in "
+        "field order. The order edges of the emitted HUGR and behaviour after a panic are not decided.",
+        "Trusted: ast parser, gsa/absint/pyeval.py with recording hooks for the block/branch primitives (new_bb, link, build, "
+        "_tmp_assign); ExprBuilder.build is modelled as building every operand inside the expression once, in place.",
+        "abstract interpretation of desugaring code over symbolic operands (event order check) + membership/must-call rules",
+        "DESIGN §5 C05",
+    ),
 }
 
 NOT_APPLICABLE: dict[str, str] = {
